@@ -264,6 +264,7 @@ func runC01(c *kit.Ctx) {
 
 	// ---- R01.10 write errors are not masked (Done/bit only after a *successful* write)
 	checkWriteErrorDiscipline(c, k, "R01.10")
+	checkWriterRecordsError(c, k, "R01.10")
 
 	runC01Marks(c, k, fHashOK, fError, verifyHash)
 	runC01Rest(c, k, fHashOK)
